@@ -257,7 +257,9 @@ fn run_pipeline(rep: &mut CaseReport, specs: &[LineSpec], crlf: bool, final_newl
             };
             if !e.strict {
                 rep.judged_weak += 1;
-                if obs.is_ai() && !e.writers.contains(&obs) {
+                if obs.is_ai() && !e.writers.contains(&obs) && model.wrote_line_containing(line, obs) {
+                    rep.count("filler_credited_to_writer_of_a_line_containing_its_text", 1);
+                } else if obs.is_ai() && !e.writers.contains(&obs) {
                     if model.del_neighbors.get(&key_of(line)).map(|d| d.contains(&obs)).unwrap_or(false) {
                         rep.violate(
                             "C16:line-adjacent-to-deletion-attributed-to-deleter",
